@@ -152,6 +152,11 @@ class JointRecurrenceNetwork(JointRecurrencePlot, Network):
             raise ValueError("Delay value (lag) must not exceed length of \
                              time series!")
 
+    def __cache_state__(self):
+        #  (the network part exists once Network.__init__() has run)
+        return JointRecurrencePlot.__cache_state__(self) + (
+            Network.__cache_state__(self) if hasattr(self, "_mut_A") else ())
+
     def __str__(self):
         """
         Returns a string representation.
